@@ -34,6 +34,7 @@ package main
 
 //@ func (*server).ServeHTTP
 //@ property C09
+//@ requires jsonrpc2.registryWF(s.HTTPServer.Server.registry) && !held(s.HTTPServer.Server.mu)
 //@ ensures [every-served-connection-is-closed-out] {C09} callcount("Serve") > 0 && s.onDisconnect != nil ==>
 //@        callcount("onDisconnect") == 1 && ref(callarg("onDisconnect", 0)[0]) == callarg("Serve", 0)[0]
 //@ ensures [served-at-most-once] {C09} callcount("Serve") <= 1 && callcount("onDisconnect") <= callcount("Serve")
